@@ -340,21 +340,39 @@ pub fn real_queensbig(bindir: &str, n: usize) -> String {
 pub fn real_queenshuge(bindir: &str, n: usize) -> String {
     use std::io::Read;
     use std::process::{Command, Stdio};
-    let mut child = match Command::new(format!("{bindir}/n_queens_gen")).args(["-n", &n.to_string()]).env("RUST_BACKTRACE", "0").stdin(Stdio::null()).stdout(Stdio::piped()).stderr(Stdio::piped()).spawn() {
+    // address space capped at 8 GiB (a generator that collects the whole formula before writing must not exhaust the machine),
+    // 30 s for the first 6 MB
+    let mut child = match Command::new("sh")
+        .arg("-c")
+        .arg("ulimit -v 8388608; exec \"$0\" -n \"$1\"")
+        .arg(format!("{bindir}/n_queens_gen"))
+        .arg(n.to_string())
+        .env("RUST_BACKTRACE", "0")
+        .stdin(Stdio::null())
+        .stdout(Stdio::piped())
+        .stderr(Stdio::piped())
+        .spawn()
+    {
         Ok(c) => c,
         Err(_) => return "(harness-io)".into(),
     };
     let mut so = child.stdout.take().unwrap();
-    let mut buf = vec![0u8; 6 << 20];
-    let mut got = 0usize;
-    while got < buf.len() {
-        match so.read(&mut buf[got..]) {
-            Ok(0) => break,
-            Ok(k) => got += k,
-            Err(_) => break,
+    let (tx, rx) = std::sync::mpsc::channel::<Vec<u8>>();
+    let want = 6usize << 20;
+    std::thread::spawn(move || {
+        let mut buf = vec![0u8; want];
+        let mut got = 0usize;
+        while got < buf.len() {
+            match so.read(&mut buf[got..]) {
+                Ok(0) => break,
+                Ok(k) => got += k,
+                Err(_) => break,
+            }
         }
-    }
-    drop(so);
+        buf.truncate(got);
+        let _ = tx.send(buf);
+    });
+    let res = rx.recv_timeout(Duration::from_secs(30));
     let _ = child.kill();
     let st = child.wait().ok();
     let mut err = String::new();
@@ -364,7 +382,12 @@ pub fn real_queenshuge(bindir: &str, n: usize) -> String {
     if err.contains("panicked at") || st.and_then(|s| s.code()) == Some(101) {
         return "(panic)".into();
     }
-    if got < buf.len() {
+    let buf = match res {
+        Ok(b) => b,
+        Err(_) => return "(no-output-in-time)".into(),
+    };
+    let got = buf.len();
+    if got < want {
         return format!("(short-output {got})");
     }
     let text = String::from_utf8_lossy(&buf[..got]);
